@@ -134,10 +134,14 @@ fn opt(v: Option<i64>) -> Sexp {
     }
 }
 
-pub fn run(c: &Sexp) -> Sexp {
+pub fn reset() {
     exec::reset();
     FUTS.with(|f| f.borrow_mut().clear());
     DEPLOG.with(|f| f.borrow_mut().clear());
+}
+
+pub fn run(c: &Sexp) -> Sexp {
+    reset();
     let owner = Owner::new();
     let out = owner.with(|| run_in(c));
     exec::reset();
